@@ -93,4 +93,43 @@ example : acceptsEkf { ex with sensorNoise := [("gps", ["g"]), ("alt", ["r2", "r
 example : acceptsEkf { ex with sensors := [⟨"alt", [("r1", ["z"]), ("r2", ["u"])]⟩, ⟨"gps", [("g", ["z"])]⟩] } = false := by
   decide +kernel
 
+
+/-! ### the order in which tables are written is not a structural property -/
+
+/-- **Writing the process-noise table in another order changes nothing**: what `compile_ekf` accepts, and what the property calls
+valid, depend on the entries of the table, not on the order they were written in. -/
+theorem noise_order_irrelevant (d : VDef) (noise' : List (NoiseKey × Rat)) (h : d.noise.Perm noise') :
+    acceptsEkf { d with noise := noise' } = acceptsEkf d ∧ validEkf { d with noise := noise' } = validEkf d := by
+  have hall : ∀ f : NoiseKey × Rat → Bool, noise'.all f = d.noise.all f := fun f => (h.all_eq (f := f)).symm
+  have hlen : noise'.length = d.noise.length := h.length_eq.symm
+  have hsyms : (noiseSyms { d with noise := noise' }).contains = (noiseSyms d).contains := by
+    funext a; unfold noiseSyms; exact ((h.filterMap _).contains_eq (a := a)).symm
+  have hs1 : sensorNoiseCount { d with noise := noise' } = sensorNoiseCount d := by funext s; rfl
+  have hs2 : sensorNoiseSame { d with noise := noise' } = sensorNoiseSame d := by funext s; rfl
+  constructor
+  · simp only [acceptsEkf, modelValidation, noiseKeysOk, noiseNonneg, calSizesOk, sensorSymsOk, sensorKeysSame, hall, hlen, hs1]
+  · simp only [validEkf, validCal, validNoise, validSensors, validSensorNoise, noiseKeysOk, noiseNonneg, subsetB,
+      sensorSymsOk, sensorKeysSame, hall, hsyms, hs2]
+
+/-- … and neither does the order in which the controls were declared -/
+theorem control_order_irrelevant (d : VDef) (control' : List Name) (h : d.control.Perm control') :
+    acceptsEkf { d with control := control' } = acceptsEkf d := by
+  have hc : ∀ a : Name, control'.contains a = d.control.contains a := fun a => (h.contains_eq (a := a)).symm
+  have hlen : control'.length = d.control.length := h.length_eq.symm
+  have hs : sensorNoiseCount { d with control := control' } = sensorNoiseCount d := by funext s; rfl
+  simp only [acceptsEkf, modelValidation, noiseKeysOk, noiseNonneg, calSizesOk, sensorSymsOk, sensorKeysSame, hc, hlen, hs]
+
+/-! non-vacuity: two controls, noise written in the other order than the controls — accepted and valid -/
+def exSwapped : VDef where
+  state := ["x"]
+  control := ["a", "b"]
+  calibration := []
+  updateKeys := ["x"]
+  calKeys := []
+  noise := [(.sym "b", 1), (.sym "a", 2)]
+  sensors := []
+  sensorNoise := []
+
+example : acceptsEkf exSwapped = true ∧ validEkf exSwapped = true := by decide +kernel
+
 end FormakVerif.C14
